@@ -103,6 +103,17 @@ theorem C06_hashedwrite_streaming_faulty (P : HashPrims) (buf : Bytes) (events :
   refine ⟨by simp [HW.hash, HW_writeRetry_inv HW.init buf events rfl], ?_⟩
   simpa [HW.init] using HW_writeRetry_prefix HW.init buf events
 
+/-- Exact form: the digest is the data hash of the first `events.sum` bytes of the caller's data — in particular of all of it
+    as soon as the inner writer has been willing to take that many bytes in total, however the acceptances and failures fell. -/
+theorem C06_hashedwrite_retry_exact (P : HashPrims) (buf : Bytes) (events : List Nat) :
+    (HW.writeRetry HW.init buf events).hash P = P.dataHash (buf.take events.sum) ∧
+    (buf.length ≤ events.sum → (HW.writeRetry HW.init buf events).hash P = P.dataHash buf) := by
+  have h := HW_writeRetry_exact HW.init buf events
+  have hh : (HW.writeRetry HW.init buf events).hashed = buf.take events.sum := by
+    rw [HW_writeRetry_inv HW.init buf events rfl, h]; simp [HW.init]
+  refine ⟨by simp [HW.hash, hh], fun hle => ?_⟩
+  simp [HW.hash, hh, List.take_of_length_le hle]
+
 /-! ### Non-vacuity -/
 example : (HW.writeRetry HW.init [1, 2, 3, 4, 5] [2, 0, 0, 1, 0, 9]).written = [1, 2, 3, 4, 5] := by decide
 
